@@ -24,7 +24,7 @@ LEVEL = "model_checking"
 
 GETTERS = ["get_DNVGL_Hs_Tz", "get_DNVGL_Hs_U", "get_OMAE2020_Hs_Tz", "get_OMAE2020_V_Hs",
            "get_Windmeier_EW_Hs_S", "get_Nonzero_EW_Hs_S"]
-SKIP_ATTRS = {"_sample"}  # TransformedModel's lazily drawn sample cache (not a parameter; results stay repeatable)
+SKIP_ATTRS = {"_sample", "_sample_model_state"}  # TransformedModel's lazily drawn sample cache (not a parameter; results stay repeatable)
 
 
 # ------------------------------------------------------------------------- fingerprints
